@@ -122,10 +122,10 @@ theorem widened_upper (u s mx nrm : Rat) (hn : 0 < nrm) (hs : 0 ≤ s) (hsm : s 
 /-! ### dispatch variables -/
 
 theorem mem_dispVars (M : List MapRow) (d : Nat) :
-    d ∈ dispVars M ↔ ∃ m ∈ M, m.kind = .d ∧ m.var = d := by
+    d ∈ dispVars M ↔ ∃ m ∈ M, isCapRow m = true ∧ m.var = d := by
   unfold dispVars
   rw [mem_eraseDups]
-  simp only [List.mem_map, List.mem_filter, beq_iff_eq]
+  simp only [List.mem_map, List.mem_filter]
   constructor
   · rintro ⟨m, ⟨hm, hk⟩, rfl⟩; exact ⟨m, hm, hk, rfl⟩
   · rintro ⟨m, hm, hk, rfl⟩; exact ⟨m, ⟨hm, hk⟩, rfl⟩
